@@ -108,6 +108,7 @@ class ReadSparseArray(Contract):
         return [("is-a-new-csr-array", z3.And(c.result > c.old_ctr, c.result <= c.new_ctr, H.is_sparse(r), H.sp_fmt(r) == H.FMT_CSR,
                                               z3.Not(H.np_dtype_is_bytes(r)), z3.Not(H.np_dtype_is_str(r)))),
                 ("denotes-the-stored-matrix", H.sp_mat(r) == stored_matrix(ds, at, nm)),
+                ("has-the-stored-shape", H.sp_shape(r) == attr_val(at, nm, A_SHAPE)),
                 ("heap-preserved", z3.And(c.new_ctr >= c.old_ctr, z3.ForAll([a], z3.Implies(a <= c.old_ctr, h1[a] == h0[a]))))]
 
 
